@@ -1,6 +1,7 @@
 import Enc.Driver.Ascii
 import Enc.Driver.Proto
 import Enc.Driver.Iso
+import Enc.Driver.Thrift
 /-!
 encdriver: reads `op<TAB>arg…` lines on stdin, answers `M<TAB>S<TAB>K` per line
 (model observable, spec observable, comma-separated Known classes), `bad-op` for what it cannot parse.
@@ -12,6 +13,7 @@ def dispatch (op : String) (args : List String) : Option (String × String × St
   if op.startsWith "ascii." then Driver.Ascii.handle op args
   else if op.startsWith "proto." then Driver.Proto.handle op args
   else if op.startsWith "iso." then Driver.Iso.handle op args
+  else if op.startsWith "thrift." then Driver.Thrift.handle op args
   else none
 
 def step (line : String) : String :=
